@@ -526,7 +526,17 @@ def _v_hint_shortcut_before_assumptions(tree):
     g.body[k[0]:k[0]] = M.stmts("if solution_limit == 1 and all(any(phase[lit_var(lit)] == (lit > 0) for lit in c) for c in clauses):\n    sol = {v: phase[v] for v in range(1, n_vars + 1)}\n    return Result(sol, len(sol), 0, 0)")
 
 
+def _v_learned_clause_minimised(tree):
+    g = M.find_func(tree, "solve_sat.analyze")
+    k = [i for i, st in enumerate(g.body) if isinstance(st, ast.Assign) and M.src_is(st.targets[0], "lvl_set")]
+    if not k:
+        raise M.Skip("lvl_set not found")
+    g.body[k[0]:k[0]] = M.stmts("if len(learned_lits) > 2:\n    learned_lits[1:] = [lit for lit in learned_lits[1:] if levels[lit_var(lit)] > 0]")
+
+
 VARIANTS = [
+    M.Variant("literals are removed from the learned clause after resolution (seed C02-O)", SAT, _v_learned_clause_minimised, "C02-O13"),
+
     M.Variant("an assignment that satisfies the clauses is returned before the assumptions are looked at (seed C02-M)", SAT, _v_hint_shortcut_before_assumptions, "C02-O3"),
     M.Variant("long input clauses get their watches only under an extra condition (seed C01-P)", SAT, _v_ingest_watch_conditional, "C02-O5"),
 
